@@ -411,9 +411,9 @@ pub fn spec_add(cfg: &Cfg, pre: &Snap, ghost: &Ghost, op: &Op, out: &Outcome, po
     if cfg.exclusive {
         let ow = post.owners.iter().find(|o| o.0 == inst).map(|o| o.1);
         let exp_owner = if kind == 0 || kind == 1 { Some(w) } else { None };
-        if kind == 1 {
-            // dispose by the owner: whether ownership is kept is not constrained
-        } else if ow != exp_owner {
+        // (a dispose is not an unregister: the owner stays the owner - property C24 lets ownership pass on unregister,
+        // deletion or a missed deadline only)
+        if ow != exp_owner {
             f.push((format!("C24/owner-after-{}/real={:?}/spec={:?}", kname(kind), ow, exp_owner), ctx("ownership table after an accepted change by the (new) owner")));
         }
     }
